@@ -1,3 +1,3 @@
 import CobaVerif.Driver.Loop
--- stub: replaced when the C04 model exists
-def main : IO Unit := Coba.J.runLoop (fun _ => .error "C04 driver not implemented")
+import CobaVerif.Driver.C04
+def main : IO Unit := Coba.J.runLoop Coba.C04.Driver.handle
